@@ -63,6 +63,14 @@ def classify_match(m):
         p = a["pat"]
         if p.get("k") == "ts" and H.last(p["res"].get("path")) == "Err":
             ev = p["pats"][0].get("name") if p["pats"] and p["pats"][0].get("k") == "bind" else None
+            if a.get("guard") is not None:
+                # `Err(e) if e.kind() == ErrorKind::UnexpectedEof => ..`: the end of the input is not a failure (C19 decides
+                # what it maps to); the arm that takes every other error is the one examined here
+                if re.fullmatch(r"\(?%s\.kind\(\) == (io::)?ErrorKind::UnexpectedEof\)?" % re.escape(ev or "?"), H.render(a["guard"])):
+                    continue
+                if ev and err_arm_ok(a["body"], ev):
+                    continue
+                return False, "a guarded Err arm does not yield an error object: %s" % H.render(a["body"])[:80]
             if ev and err_arm_ok(a["body"], ev):
                 return True, "Err(%s) arm yields Object::Err(ErrorObj::IO(%s))" % (ev, ev)
             txt = H.render(a["body"])
